@@ -532,7 +532,8 @@ pub fn variable_graph_cases(rng: &mut Rng, n: usize) -> Vec<GDoc> {
             }
             // a quarter of the documents give all operations the same name, or no name at all
             // (rejected by the operation-name rules, but the variable rules work per operation)
-            let name = match same_names { 1 => Some("Q".to_string()), 2 => None, _ => Some(format!("Q{}", o)) };
+            // ... and now and then an operation carries the name of a fragment (separate name spaces)
+            let name = match same_names { 1 => Some("Q".to_string()), 2 => None, _ => if rng.pct(15) { Some(format!("F{}", rng.below(k))) } else { Some(format!("Q{}", o)) } };
             defs.push(GDef::Op { kind: OpKind::Query, name, vars, dirs: vec![], sels });
         }
         for f in 0..k {
@@ -594,8 +595,13 @@ pub fn merge_shape_cases() -> Vec<GDoc> {
 /// zero or one field BEFORE and AFTER each of its spreads (so that what follows a repeated spread
 /// matters); fields drawn from a pool with at most two distinct response keys plus __typename.
 pub fn subscription_graph_cases(rng: &mut Rng, n: usize) -> Vec<GDoc> {
+    subscription_graph_cases_on(rng, n, "Subscription", "s1", "s2")
+}
+
+/// the same over a subscription root type `root` with fields `f1`, `f2` (type conditions name `root`)
+pub fn subscription_graph_cases_on(rng: &mut Rng, n: usize, root: &str, f1: &str, f2: &str) -> Vec<GDoc> {
     let fld = |alias: Option<&str>, name: &str| GSel::Field { alias: alias.map(|x| x.to_string()), name: name.into(), args: vec![], dirs: vec![], sels: vec![] };
-    let atoms: Vec<GSel> = vec![fld(None, "s1"), fld(None, "s2"), fld(Some("s1"), "s2"), fld(Some("k"), "s1"), fld(None, "__typename")];
+    let atoms: Vec<GSel> = vec![fld(None, f1), fld(None, f2), fld(Some(f1), f2), fld(Some("k"), f1), fld(None, "__typename")];
     let mut out = vec![];
     for _ in 0..n {
         let k = rng.range(1, 3);
@@ -633,7 +639,7 @@ pub fn subscription_graph_cases(rng: &mut Rng, n: usize) -> Vec<GDoc> {
                     }
                 }
             }
-            defs.push(GDef::Frag { name: format!("F{}", f), tc: "Subscription".into(), dirs: vec![], sels: body(rng, targets) });
+            defs.push(GDef::Frag { name: format!("F{}", f), tc: root.into(), dirs: vec![], sels: body(rng, targets) });
         }
         out.push(GDoc(defs));
     }
@@ -695,6 +701,11 @@ pub fn argument_slot_cases() -> Vec<GDoc> {
         fld("name", vec![("x", i(1))], vec![dir("onF", vec![])], vec![]),     // name takes no arguments
         fld("nope", vec![("x", i(1))], vec![], vec![]),                       // unknown field
         fld("name", vec![], vec![dir("zzUnknown", vec![("x", i(1))])], vec![]), // unknown directive
+        // an unknown directive ON a field with arguments, its arguments named like the field's
+        fld("arg1", vec![("x", i(1))], vec![dir("zzUnknown", vec![("x", GValue::Obj(vec![("x".into(), i(1))])), ("y", i(2))])], leaf()),
+        fld("arg2", vec![("y", i(1)), ("ln", GValue::List(vec![]))], vec![dir("zzUnknown", vec![("l", GValue::List(vec![i(1)])), ("y", GValue::Null)])], leaf()),
+        GSel::Inline { tc: None, dirs: vec![dir("zzUnknown", vec![("x", i(1))])], sels: leaf() },
+        GSel::Spread { name: "NoSuch".into(), dirs: vec![dir("zzUnknown", vec![("x", i(1)), ("y", i(1))])] },
     ];
     let wrap = |k: usize, inner: GSel| -> GSel {
         match k {
@@ -766,4 +777,103 @@ pub fn field_owner_cases(si: &SchemaInfo, rng: &mut Rng, max: usize) -> Vec<Stri
         }
     }
     pick_sample(all, max, rng)
+}
+
+/// C07 / C16: a variable inside an OBJECT literal for the input type Point (fields with and without
+/// defaults, list-typed fields), the literal placed at a position of EVERY wrapper shape of Point:
+/// bare (single-value coercion at list positions), inside matching list brackets, and nested in
+/// `inner:`; variable types with and without non-null / default.
+pub fn variable_object_cases() -> Vec<GDoc> {
+    let vts: Vec<(GType, Option<GValue>)> = vec![
+        (GType::Named("Int".into()), None),
+        (GType::Named("Int".into()), Some(GValue::Int(3))),
+        (GType::NonNull(Box::new(GType::Named("Int".into()))), None),
+        (GType::Named("String".into()), None),
+        (GType::List(Box::new(GType::NonNull(Box::new(GType::Named("String".into()))))), None),
+        (GType::List(Box::new(GType::NonNull(Box::new(GType::Named("Int".into()))))), Some(GValue::List(vec![]))),
+        (GType::NonNull(Box::new(GType::List(Box::new(GType::NonNull(Box::new(GType::Named("Int".into()))))))), None),
+    ];
+    let mut out = vec![];
+    for (k, shape) in SHAPES.iter().enumerate() {
+        for placement in 0..3 {
+            for field in ["x", "y", "label", "tags", "nl"] {
+                for (vt, dv) in &vts {
+                    let mut obj = GValue::Obj(vec![("x".to_string(), GValue::Int(1)), ("nl".to_string(), GValue::List(vec![])), (field.to_string(), GValue::Var("v".into()))]
+                        .into_iter().rev().collect::<Vec<_>>().into_iter().rev().collect());
+                    // drop the constant duplicate of the field that carries the variable
+                    if let GValue::Obj(ref mut kv) = obj {
+                        let mut seen = false;
+                        kv.retain(|(kk, vv)| { if kk == field && !matches!(vv, GValue::Var(_)) { false } else { if kk == field { if seen { return false; } seen = true; } true } });
+                    }
+                    let mut v = match placement {
+                        2 => GValue::Obj(vec![("x".to_string(), GValue::Int(1)), ("nl".to_string(), GValue::List(vec![])), ("inner".to_string(), obj)]),
+                        _ => obj,
+                    };
+                    if placement == 1 {
+                        for c in shape.chars().rev() {
+                            if c == 'L' {
+                                v = GValue::List(vec![v]);
+                            }
+                        }
+                    }
+                    out.push(GDoc(vec![GDef::Op { kind: OpKind::Query, name: Some("Q".into()),
+                        vars: vec![GVar { name: "v".into(), ty: vt.clone(), default: dv.clone() }], dirs: vec![],
+                        sels: vec![GSel::Field { alias: None, name: format!("f_Point_{}", k), args: vec![("a".to_string(), v)], dirs: vec![], sels: vec![] }] }]));
+                }
+            }
+        }
+    }
+    out
+}
+
+/// C05: fragment DAGs over fields with colliding response keys: 3..5 fragments on A, each with 0..2
+/// leaf fields from a small pool (x: name / x: nick / y: name / name) and 0..3 spreads of later
+/// fragments in RANDOM order (shared sub-fragments, diamonds, a conflicting fragment placed after an
+/// already compared one); reached from the selection set's own fields, from a sibling same-key
+/// field, or from two same-key fields one level down.
+pub fn merge_fragment_dag_cases(rng: &mut Rng, n: usize) -> Vec<GDoc> {
+    let leaf = |alias: Option<&str>, name: &str| GSel::Field { alias: alias.map(|x| x.to_string()), name: name.into(), args: vec![], dirs: vec![], sels: vec![] };
+    let leaves = |rng: &mut Rng| -> Vec<GSel> {
+        (0..rng.below(3)).map(|_| match rng.below(5) {
+            0 => leaf(Some("x"), "name"), 1 => leaf(Some("x"), "nick"), 2 => leaf(Some("y"), "name"), 3 => leaf(None, "name"), _ => leaf(Some("y"), "id"),
+        }).collect()
+    };
+    let mut out = vec![];
+    for _ in 0..n {
+        let k = rng.range(3, 5);
+        let mut defs = vec![];
+        let spreads_of = |rng: &mut Rng, from: usize| -> Vec<GSel> {
+            let mut t: Vec<usize> = ((from + 1)..k).filter(|_| rng.pct(55)).collect();
+            for a in (1..t.len()).rev() {
+                let b = rng.below(a + 1);
+                t.swap(a, b);
+            }
+            t.into_iter().map(|g| GSel::Spread { name: format!("D{}", g), dirs: vec![] }).collect()
+        };
+        let mut top: Vec<GSel> = leaves(rng);
+        let mut roots: Vec<GSel> = (0..k).filter(|_| rng.pct(50)).map(|g| GSel::Spread { name: format!("D{}", g), dirs: vec![] }).collect();
+        if roots.is_empty() {
+            roots.push(GSel::Spread { name: "D0".into(), dirs: vec![] });
+        }
+        let body: Vec<GSel> = match rng.below(3) {
+            0 => { top.extend(roots); top }
+            1 => vec![GSel::Field { alias: Some("p".into()), name: "self".into(), args: vec![], dirs: vec![], sels: if top.is_empty() { vec![leaf(None, "id")] } else { top } },
+                      GSel::Field { alias: Some("p".into()), name: "self".into(), args: vec![], dirs: vec![], sels: roots }],
+            _ => { let mut v = roots; v.extend(top); v }
+        };
+        defs.push(GDef::Op { kind: OpKind::SelSet, name: None, vars: vec![], dirs: vec![],
+            sels: vec![GSel::Field { alias: None, name: "a".into(), args: vec![], dirs: vec![], sels: body }] });
+        for f in 0..k {
+            let mut sels = vec![];
+            let sp = spreads_of(rng, f);
+            let lv = leaves(rng);
+            if rng.pct(50) { sels.extend(lv); sels.extend(sp); } else { sels.extend(sp); sels.extend(lv); }
+            if sels.is_empty() {
+                sels.push(leaf(None, "id"));
+            }
+            defs.push(GDef::Frag { name: format!("D{}", f), tc: "A".into(), dirs: vec![], sels });
+        }
+        out.push(GDoc(defs));
+    }
+    out
 }
